@@ -111,6 +111,16 @@ def check_episode(c, ep, segs, label):
     c.prove(label + "EventDone-sent-once-at-the-end", sum(k.count("Done") for k in [[e["kind"] for e in sg] for sg in segs]) == 1
             and ksl[-1] == "Done", info=ksl)
     c.record(label + "log", [[e["kind"], e["tag"], e["time"], e["nreb"]] for e in flat])
+    if cfg.get("more_observers"):
+        # every observer receives exactly the events of the types it subscribed to, in the same order
+        pings = [e["event"] for e in ep.log if e["kind"] == "Ping"]
+        nbbos = [e["event"] for e in ep.log if e["kind"] == "NBBO"]
+        c.prove(label + "observer-of-one-type-gets-exactly-that-type",
+                len(ep.ping_log) == len(pings) and all(a is b for a, b in zip(ep.ping_log, pings)),
+                info={"got": [getattr(x, "_tag", type(x).__name__) for x in ep.ping_log]})
+        c.prove(label + "observer-of-one-type-gets-exactly-that-type",
+                len(ep.nbbo_log) == len(nbbos) and all(a is b for a, b in zip(ep.nbbo_log, nbbos)),
+                info={"got": [getattr(x, "_tag", type(x).__name__) for x in ep.nbbo_log]})
 
 
 def harness(c, cfg):
@@ -143,6 +153,7 @@ def configs(tier):
     add(N=3, M=1, latency="sym", free_kinds=["ping"], episodes=2)
     add(N=3, M=0, latency="zero", grid_perm=[2, 0, 1, 0])
     add(N=3, M=2, latency="zero", free_kinds=["quote", "ping"])
+    add(N=3, M=2, latency="sym", free_kinds=["ping", "quote"], more_observers=True, episodes=2)
     if tier == "thorough":
         add(N=3, M=2, latency="sym", free_kinds=["quote", "ping"])
         add(N=3, M=2, latency="sym", free_kinds=["ping", "ping"], insertion="free-first")
